@@ -37,6 +37,7 @@ func C11(ctx *core.Ctx, r *core.Report) {
 	c11ErrorsPropagate(ctx, r, check)
 	c11DeviationCoverage(ctx, r)
 	c11NotSupported(ctx, r)
+	c11DeviateKindsIndependent(ctx, r)
 }
 
 // originOf: strip clones/conversions: d := orig.clone(target).(Definition) → orig.
@@ -271,6 +272,74 @@ func c11ErrorsPropagate(ctx *core.Ctx, r *core.Report, check *ssa.Function) {
 
 // c11DeviationCoverage: every field a deviate statement stores is read when
 // the deviation is applied, and list-valued ones are applied by one loop.
+// c11DeviateKindsIndependent: one deviation statement may hold deviate add,
+// replace and delete together; applyDeviation applies each that is present:
+// the test of one kind is never made only when another kind is absent.
+func c11DeviateKindsIndependent(ctx *core.Ctx, r *core.Report) {
+	ad := ctx.Method("meta", "resolver", "applyDeviation")
+	dev := ctx.Named("meta", "Deviation")
+	if ad == nil || dev == nil {
+		r.Fatalf("anchors meta.resolver.applyDeviation / meta.Deviation not found")
+		return
+	}
+	st := dev.Underlying().(*types.Struct)
+	kinds := map[int]string{}
+	for i := 0; i < st.NumFields(); i++ {
+		switch st.Field(i).Name() {
+		case "Add", "Replace", "Delete":
+			kinds[i] = st.Field(i).Name()
+		}
+	}
+	// nil tests of d.<kind>
+	kindOf := func(v ssa.Value) string {
+		b, ok := v.(*ssa.BinOp)
+		if !ok || (b.Op != token.NEQ && b.Op != token.EQL) {
+			return ""
+		}
+		x := b.X
+		if core.IsNilConst(x) {
+			x = b.Y
+		} else if !core.IsNilConst(b.Y) {
+			return ""
+		}
+		u, ok := x.(*ssa.UnOp)
+		if !ok {
+			return ""
+		}
+		fa, ok := u.X.(*ssa.FieldAddr)
+		if !ok || core.NamedOf(fa.X.Type()) != dev {
+			return ""
+		}
+		return kinds[fa.Field]
+	}
+	n := 0
+	seen := map[string]bool{}
+	for _, b := range ad.Blocks {
+		if len(b.Instrs) == 0 {
+			continue
+		}
+		ifi, ok := b.Instrs[len(b.Instrs)-1].(*ssa.If)
+		if !ok {
+			continue
+		}
+		k := kindOf(ifi.Cond)
+		if k == "" || seen[k] {
+			continue
+		}
+		seen[k] = true
+		n++
+		dep := ""
+		for _, pc := range core.PathConds(b) {
+			if o := kindOf(pc.V); o != "" && o != k {
+				dep = o
+			}
+		}
+		r.Ob("deviate-kinds-independent", "meta.resolver.applyDeviation/"+k, ctx.Pos(ifi.Pos()), dep == "",
+			"deviate "+strings.ToLower(k)+" is looked at only on one side of the test for deviate "+strings.ToLower(dep)+": a deviation that holds both has the second one silently dropped")
+	}
+	r.Floor("deviate-kinds-independent", n, 3)
+}
+
 func c11DeviationCoverage(ctx *core.Ctx, r *core.Report) {
 	ad := ctx.Method("meta", "resolver", "applyDeviation")
 	chk := ctx.Method("meta", "resolver", "checkDeviationTarget")
